@@ -111,4 +111,26 @@ theorem findDesc_eq (pre : Predef) (n : Node J V) (h : namesNodup n) (m a : Stri
       unfold describeModule findWire
       exact find_desc_accs pre mod a mod.accs
 
+/-- a described name resolves, in the dispatcher's own tables, to the accessible the entry was made from -/
+theorem described_resolves (pre : Predef) (n : Node J V) (h : namesNodup n) (m a : String) (ad : AccDesc J)
+    (hd : findDesc (describe pre n) m a = some ad) :
+    ∃ mod acc, findModule n m = some mod ∧ mod.exported = true ∧ findWire pre mod a = some acc ∧
+      wireName pre mod acc = some a ∧ describeAcc pre mod acc = some ad := by
+  rw [findDesc_eq pre n h m a] at hd
+  cases hf : findModule n m with
+  | none => rw [hf] at hd; cases hd
+  | some mod =>
+    rw [hf] at hd; simp only at hd
+    cases he : mod.exported with
+    | false => rw [he] at hd; cases hd
+    | true =>
+      rw [he] at hd; simp only [if_true] at hd
+      cases hw : findWire pre mod a with
+      | none => rw [hw] at hd; cases hd
+      | some acc =>
+        rw [hw] at hd; simp only [Option.bind_some] at hd
+        have hwn : wireName pre mod acc = some a := by
+          unfold findWire at hw; simpa using List.find?_some hw
+        exact ⟨mod, acc, rfl, he, hw, hwn, hd⟩
+
 end Frappy.Lemmas.Describe
